@@ -1019,14 +1019,16 @@ type AggCase struct {
 	Kind      string               `json:"kind"` // "agg"
 	WS        string               `json:"ws"`
 	Files     map[string]string    `json:"files"`
-	Mode      string               `json:"mode"` // oneshot | twophase-nodirs | twophase-dirs
+	Mode      string               `json:"mode"` // oneshot | twophase-nodirs | twophase-dirs | mixed
 	Target    *Viol                `json:"target,omitempty"`
 	Place     string               `json:"place,omitempty"`
 	Spell     string               `json:"spell,omitempty"`
 	Dir       string               `json:"dir,omitempty"`
 	Names     []string             `json:"names,omitempty"`
 	Comments  map[string][]Comment `json:"comments"`
-	Raw       []Viol               `json:"raw"` // aggregate violations of the defused workspace (same mode)
+	Given     map[string][]Comment `json:"given_comments,omitempty"` // mixed mode: comments of the files whose directives were provided
+	Base      map[string]string    `json:"base,omitempty"`           // mixed mode: the unedited files
+	Raw       []Viol               `json:"raw"`                      // aggregate violations of the defused workspace (same mode)
 	Obs       []Viol               `json:"obs"`
 	Before    []Viol               `json:"before,omitempty"`     // one-shot aggregate violations before the edit
 	RawBase   []Viol               `json:"raw_before,omitempty"` // ... of the defused workspace before the edit
@@ -1126,6 +1128,39 @@ func spreadByTitle(ts []Viol) []Viol {
 	return append(out, rest...)
 }
 
+// mixed: the aggregates and directives collected from the (unedited) files are provided, and one (edited) file is
+// linted in the same run; its own fresh directives must win over the provided ones for that file
+func (e *env) mixed(base map[string]string, name, edited string) ([]Viol, rules.Input, error) {
+	merged := map[string][]report.Aggregate{}
+	dirs := map[string]map[string][]string{}
+	names := make([]string, 0, len(base))
+	for n := range base {
+		names = append(names, n)
+	}
+	sort.Strings(names)
+	for _, n := range names {
+		c := e.collect(n, base[n])
+		if c.err != nil {
+			return nil, rules.Input{}, c.err
+		}
+		for k, a := range c.aggs {
+			merged[k] = append(merged[k], a...)
+		}
+		for f, d := range c.dirs {
+			dirs[f] = d
+		}
+	}
+	in, err := rules.InputFromMap(map[string]string{name: edited}, nil)
+	if err != nil {
+		return nil, in, err
+	}
+	rep, err := e.aggLinter().WithInputModules(&in).WithAggregates(merged).WithIgnoreDirectives(dirs).Lint(context.Background())
+	if err != nil {
+		return nil, in, err
+	}
+	return violsOf(rep, func(s string) string { return s }, true), in, nil
+}
+
 func allComments(in rules.Input) map[string][]Comment {
 	out := map[string][]Comment{}
 	for _, n := range in.FileNames {
@@ -1222,6 +1257,9 @@ func e2eAggregate(e *env, r *hutil.Rng, out *hutil.Out, wss []workspace, maxTarg
 					if sp.Name == "one" && (pl == "above" || pl == "same") {
 						modes = append(modes, "twophase-nodirs", "twophase-dirs")
 					}
+					if sp.Name == "one" && pl == "same" {
+						modes = append(modes, "mixed")
+					}
 					lines, ok := applyEdit(w.Files[tv.File], pl, tv.Row, sp.Text)
 					for _, mode := range modes {
 						c := &AggCase{Kind: "agg", WS: w.Name, Mode: mode, Target: &tv, Place: pl, Spell: sp.Name, Dir: sp.Text,
@@ -1240,6 +1278,9 @@ func e2eAggregate(e *env, r *hutil.Rng, out *hutil.Out, wss []workspace, maxTarg
 						}
 						fs[tv.File] = strings.Join(lines, "\n") + "\n"
 						c.Files = fs
+						if mode == "mixed" {
+							c.Base, c.Given = texts, comments
+						}
 						c.OwnAbove = (pl != "same" && ownDirRows(w.Files[tv.File])[editRow(pl, tv.Row)-1]) ||
 							(pl == "same" && strings.Contains(w.Files[tv.File][tv.Row-1], "#"))
 						key := fmt.Sprintf("%s|%s|%d|%s", w.Name, tv.File, tv.Row, pl)
@@ -1271,6 +1312,8 @@ func e2eAggregate(e *env, r *hutil.Rng, out *hutil.Out, wss []workspace, maxTarg
 			switch c.Mode {
 			case "oneshot":
 				c.Obs, in, err = e.oneShot(j.files)
+			case "mixed":
+				c.Obs, in, err = e.mixed(c.Base, c.Target.File, j.files[c.Target.File])
 			default:
 				in, err = rules.InputFromMap(j.files, nil)
 				if err == nil {
@@ -1450,6 +1493,11 @@ func replay(e *env, o *opa, out *hutil.Out, path string) {
 		switch c.Mode {
 		case "oneshot":
 			c.Obs, in, err = e.oneShot(c.Files)
+			must(err)
+			c.Raw, _, err = e.oneShot(defuseAll(c.Files))
+			must(err)
+		case "mixed":
+			c.Obs, in, err = e.mixed(c.Base, c.Target.File, c.Files[c.Target.File])
 			must(err)
 			c.Raw, _, err = e.oneShot(defuseAll(c.Files))
 			must(err)
